@@ -35,7 +35,12 @@ type mon struct {
 	nontriv  bool
 	nviol    int
 	cnt      map[string]int
+	dist     map[string]bool // distinct observations of this history ("set\x00key"), merged by flush
 	ever     map[string]bool
+
+	// cycling episodes: the decline / release / hostile-request events (message:class) seen since the free
+	// list was last cycled completely. Coverage bookkeeping only - no clause reads it.
+	events map[string]bool
 }
 
 func newMon(proto, cfg string, offerTTL time.Duration, classify func(string) string) *mon {
@@ -55,12 +60,126 @@ func (m *mon) count(key string, n int) {
 	}
 }
 
+// distinct records one distinct observation (set, key) of this history.
+func (m *mon) distinct(set, key string) {
+	if m.counting {
+		if m.dist == nil {
+			m.dist = map[string]bool{}
+		}
+		m.dist[set+"\x00"+key] = true
+	}
+}
+
 // flush merges the history's observation counters into the run (one lock per history).
 func (m *mon) flush() {
 	for k, n := range m.cnt {
 		run.Count(k, n)
 	}
 	m.cnt = nil
+	for k := range m.dist {
+		i := strings.IndexByte(k, 0)
+		run.Distinct(k[:i], k[i+1:])
+	}
+	m.dist = nil
+}
+
+// nameClass says what the value v named in a message of client c is at this moment, according to the
+// reference table only: own-leased, own-offered, leased-to-other, offered-to-other, declined, own-lapsed,
+// free (a usable pool value nobody holds, is offered or has declined), or gateway / network / broadcast /
+// outside-pool.
+func (m *mon) nameClass(c, kind, v string, now time.Time) string {
+	if cls := m.classify(v); cls != "" {
+		return cls
+	}
+	if hv, ok := m.heldUnexpired(c, kind, now); ok && hv == v {
+		return "own-leased"
+	}
+	if ov, ok := m.offeredTo(c, kind, now); ok && ov == v {
+		return "own-offered"
+	}
+	if m.holder(v, c, now) != "" {
+		return "leased-to-other"
+	}
+	if m.offeree(v, c, now) != "" {
+		return "offered-to-other"
+	}
+	if _, dec := m.declined[v]; dec {
+		return "declined"
+	}
+	if b, ok := m.get(m.bound, c, kind); ok && b.v == v {
+		return "own-lapsed"
+	}
+	return "free"
+}
+
+// isFree: v is a usable pool value that, according to the reference table, nobody holds, is offered or has declined.
+func (m *mon) isFree(v string, now time.Time) bool {
+	if m.classify(v) != "" || m.holder(v, "", now) != "" || m.offeree(v, "", now) != "" {
+		return false
+	}
+	_, dec := m.declined[v]
+	return !dec
+}
+
+// anyValue returns the lowest value of table t (bound / offered) that is unexpired, belongs to a client
+// other than c, is of the given kind prefix ("" for v4, "na:" / "pd:" for v6) and satisfies ok.
+func (m *mon) anyValue(t map[string]map[string]bind, c, prefix string, now time.Time, ok func(v string) bool) string {
+	best := ""
+	for d, ks := range t {
+		if d == c {
+			continue
+		}
+		for _, b := range ks {
+			if now.Before(b.exp) && strings.HasPrefix(b.v, prefix) && (ok == nil || ok(b.v)) && (best == "" || b.v < best) {
+				best = b.v
+			}
+		}
+	}
+	return best
+}
+
+// named counts one client message of type msg that names a value of class cls; with event set it is
+// remembered as an event that a later complete cycle of the free list follows.
+func (m *mon) named(msg, cls string, event bool) {
+	m.count(m.proto+"_"+msg+"_names_"+cls, 1)
+	m.distinct("message_classes", m.proto+"|"+msg+"|"+cls)
+	if !event {
+		return
+	}
+	if m.events == nil {
+		m.events = map[string]bool{}
+	}
+	if msg == "REBIND" || msg == "CONFIRM" {
+		return // the hostile symbols are DECLINE, RELEASE, REQUEST and RENEW
+	}
+	m.events[msg+":"+cls] = true
+}
+
+// cycled: the free list was visited completely (fresh clients asked until the server had nothing left to
+// hand out; got = how many values they obtained). Every event since the previous complete cycle has now
+// been followed by a visit of every free-list position.
+func (m *mon) cycled(mode string, got int) {
+	m.count("free_list_full_cycles", 1)
+	m.count("free_list_full_cycles_"+mode, 1)
+	m.count("free_list_positions_visited", got)
+	if len(m.events) == 0 {
+		return
+	}
+	evs := make([]string, 0, len(m.events))
+	dr := false
+	for e := range m.events {
+		evs = append(evs, e)
+		m.count("cycled_after_"+e, 1)
+		if strings.HasPrefix(e, "DECLINE") || strings.HasPrefix(e, "RELEASE") {
+			dr = true
+		}
+	}
+	if dr {
+		m.count("free_list_fully_cycled_after_decline_or_release", 1)
+	}
+	sort.Strings(evs)
+	m.distinct("cycle_episodes", m.cfg+"|"+mode+"|"+strings.Join(evs, ","))
+	m.events = nil
 }
 
 // hent is one history line, formatted only when a witness or sample is written.
@@ -184,6 +303,12 @@ func (m *mon) onOffer(c, kind, v, comp string, now time.Time) {
 		}
 		m.viol(comp, "declined-not-reoffered", "offer-to-"+who, v, "%s was declined by %s and is offered again to %s", v, by, c)
 	}
+	if d := m.holder(v, c, now); d != "" {
+		// an address with an unexpired acknowledged binding is not free to be offered to anybody else (an
+		// offer of an address that is merely offered to somebody else is left alone: a server need not
+		// reserve what it offers, that is judged when one of them is acknowledged)
+		m.viol(comp, "offer-unique", "leased-to-other", v, "%s offered to %s while %s holds an unexpired binding on it", v, c, d)
+	}
 	if b, ok := m.get(m.bound, c, kind); ok && !now.Before(b.exp) {
 		// c's binding has lapsed and the server answers it with an offer: the binding is over. If the same value
 		// is offered again it is now in the offered state (whose length the property does not bound); any other
@@ -201,7 +326,15 @@ func (m *mon) onOffer(c, kind, v, comp string, now time.Time) {
 	} else {
 		m.set(m.offered, c, kind, bind{v, now.Add(m.offerTTL)})
 	}
-	delete(m.oblig, v)
+	m.discharge(v)
+}
+
+// discharge: v was handed out, so a pending "available again" obligation on it is met.
+func (m *mon) discharge(v string) {
+	if why, ok := m.oblig[v]; ok {
+		m.count("available_again_"+why+"_value_handed_out_again", 1)
+		delete(m.oblig, v)
+	}
 }
 
 // onAck: an ACK / Reply binding v to c for life was observed.
@@ -232,7 +365,7 @@ func (m *mon) onAck(c, kind, v, comp string, life time.Duration, now time.Time) 
 	}
 	m.set(m.bound, c, kind, bind{v, now.Add(life)})
 	m.del(m.offered, c, kind)
-	delete(m.oblig, v)
+	m.discharge(v)
 }
 
 // markBound / everBound remember that c was bound at some time (coverage classification only).
@@ -249,12 +382,20 @@ func (m *mon) onNak(c, kind string) { m.del(m.offered, c, kind) }
 
 // onRelease: c released (own = the message named the value c holds). The
 // released value must become obtainable again unless somebody else is entitled to it.
-func (m *mon) onRelease(c, kind string, own bool, now time.Time) {
+// kept (only read when the message did not name c's own value): the server's lease table still
+// carries c's binding after the message - the server chose to ignore the message for that binding, so
+// the binding goes on; otherwise the server chose to end it and nothing further is required.
+func (m *mon) onRelease(c, kind string, own bool, now time.Time, kept bool) {
 	b, ok := m.get(m.bound, c, kind)
 	if ok && !now.Before(b.exp) {
 		// the binding had already lapsed: it is the expiry, not this message, that frees it
 		m.lapse(c, kind, now)
 		ok = false
+	}
+	if ok && !own && kept {
+		m.count("foreign_release_or_decline_left_own_binding_in_place", 1)
+		m.del(m.offered, c, kind)
+		return
 	}
 	m.del(m.bound, c, kind)
 	m.del(m.offered, c, kind)
@@ -266,12 +407,18 @@ func (m *mon) onRelease(c, kind string, own bool, now time.Time) {
 }
 
 // onDecline: c declined v. If c held or was offered v it must not be handed out
-// again; otherwise nothing is required (and the server may or may not keep c's binding).
-func (m *mon) onDecline(c, kind, v string, now time.Time) {
+// again; otherwise nothing is required and the server may or may not keep c's binding: kept says
+// which it did (its lease table still carries c's binding), see onRelease.
+func (m *mon) onDecline(c, kind, v string, now time.Time, kept bool) {
 	hv, held := m.heldUnexpired(c, kind, now)
 	ov, off := m.offeredTo(c, kind, now)
 	if (held && hv == v) || (off && ov == v) {
 		m.declined[v] = c
+	} else if held && kept {
+		m.count("foreign_release_or_decline_left_own_binding_in_place", 1)
+		m.del(m.offered, c, kind)
+		delete(m.oblig, v)
+		return
 	}
 	m.del(m.bound, c, kind)
 	m.del(m.offered, c, kind)
